@@ -474,6 +474,9 @@ def rule_C11(env):
                             "the bytes emitted for %s are not one complete opcode (%s): the following bytes are read as its argument, so "
                             "body opcodes and decoded opcodes no longer correspond one to one" % (op, broken[0]),
                             PV.op_loc(env, "::emit_and_process"), PV.sample(lf, broken))
+                if any(row is not None and row["name"] == "STOP" for row, info, pr in dec):
+                    res.add("P3", "emit_and_process/%s/stop-in-body" % op, "a body opcode writes STOP: the decoded pickle ends there, whatever the opcode budget says",
+                            PV.op_loc(env, "::emit_and_process"), PV.sample(lf, []))
                 if cnt != 1:
                     res.add("P3", "emit_and_process/%s/opcodes-%d" % (op, cnt),
                             "a chosen body opcode %s contributes %d opcodes to the output on a feasible path (must be exactly one)" % (op, cnt),
